@@ -241,7 +241,10 @@ impl core::ops::Index<core::ops::RangeTo<usize>> for ByteSeq {
 
 // <[T]>::to_vec: an element-wise clone (A-std)
 pub assume_specification<T: Clone> [<[T]>::to_vec] (s: &[T]) -> (r: Vec<T>)
-    ensures r@.len() == s@.len(), forall|i: int| 0 <= i < s@.len() ==> cloned::<T>(#[trigger] s@[i], r@[i]);
+    ensures
+        r@.len() == s@.len(),
+        forall|i: int| 0 <= i < s@.len() ==> cloned::<T>(#[trigger] s@[i], r@[i]),
+        s@ =~= r@ ==> s@ == r@;      // (a tautology: puts the extensionality term in reach, as vstd does for Vec::clone)
 
 impl ByteSeq {
     // Bytes::to_vec (through Deref<[u8]>): a copy of the content
